@@ -12,8 +12,8 @@ from . import pbuild, pcase, poracle, pgen, pref
 HERE = os.path.dirname(os.path.abspath(__file__))
 
 TIERS = {
-    'C18': {'quick': dict(cases=420, max_seconds=110, par=16), 'thorough': dict(cases=6000, max_seconds=1000, par=16)},
-    'C19': {'quick': dict(cases=420, max_seconds=110, par=16, msgfuzz=20000), 'thorough': dict(cases=6000, max_seconds=1000, par=16, msgfuzz=400000)},
+    'C18': {'quick': dict(cases=700, max_seconds=130, par=16), 'thorough': dict(cases=6500, max_seconds=1080, par=16)},
+    'C19': {'quick': dict(cases=600, max_seconds=130, par=16, msgfuzz=40000), 'thorough': dict(cases=6000, max_seconds=1080, par=16, msgfuzz=800000)},
 }
 
 
@@ -193,6 +193,9 @@ def stage_replays(ctx, chk, pid, out, known, ev):
         if expect and expect not in sigs:
             out.notes.append('known finding witness no longer fails: ' + f)
         for s, d in j.viol:
+            if any(k.get('property') == pid and k.get('signature') == s for k in known.get('known', [])):
+                register(chk, pid, out, known, s, f, d)
+                continue
             ok, d2 = confirm(ctx, pid, case, s)
             if ok < 3:
                 out.inconclusive += 1
